@@ -595,3 +595,44 @@ func (n *Node) SwitchBack(i int) (int, int) {
 	n.Stale = keep
 	return depth, len(branch)
 }
+
+// Invalidate disconnects `depth` blocks from the tip WITHOUT a replacement
+// branch (bitcoind/btcd `invalidateblock`): the best chain becomes shorter.
+// Subscribed clients are told about the disconnected blocks, tip first, as a
+// backend with per-block disconnect notifications (btcd) does. The branch
+// stays in n.Stale so that SwitchBack (`reconsiderblock`) can return to it.
+func (n *Node) Invalidate(depth int) []*Block {
+	if depth > len(n.Best)-1 {
+		depth = len(n.Best) - 1
+	}
+	if depth <= 0 {
+		return nil
+	}
+	n.Stale = append(n.Stale, n.Tip())
+	var out []*Block
+	var back []*wire.MsgTx
+	for i := 0; i < depth; i++ {
+		b := n.disconnectTip()
+		out = append(out, b)
+		var txs []*wire.MsgTx
+		for _, tx := range b.Msg.Transactions {
+			if !isCoinbase(tx) {
+				txs = append(txs, tx)
+			}
+		}
+		back = append(txs, back...)
+	}
+	for _, c := range n.subs {
+		c.pending = append(c.pending, nodeEvent{disc: out})
+	}
+	for _, tx := range back {
+		if n.CheckAccept(tx) == nil {
+			n.addPool(tx)
+			for _, c := range n.subs {
+				c.pending = append(c.pending, nodeEvent{tx: tx})
+			}
+		}
+	}
+	n.pruneOrphans()
+	return out
+}
